@@ -4,7 +4,8 @@
 //!   * without fuel twice (result + executed instruction trace through the `verif_hooks`
 //!     instruction callback, which fires for every instruction right before fuel is charged),
 //!   * with fuel: the threshold is located by bisection, then every budget in `[0, thr+8]` and
-//!     the extremes (2^31, 2^32, 2^63-1, 2^63, 2^63+1, 2^64-2, 2^64-1) are rendered through
+//!     the extremes (2^16-1, 2^16, 2^16+1, 2^24, 2^31-1, 2^31, 2^32-1, 2^32, 2^32+1, 2^53+1, 2^63-1, 2^63, 2^63+1, 2^64-2,
+//!     2^64-1) are rendered through
 //!     `render_captured`, reading `State::fuel_levels`, the number of dispatched instructions,
 //!     whether they are a prefix of the unlimited trace, and the levels seen by `probe()` calls
 //!     inside the templates (top level, loops, macros, includes, blocks, super).
@@ -42,6 +43,17 @@ struct Prog {
     /// install a custom formatter that calls the macro `fm` for the value "FMT"
     #[serde(default)]
     reenter_formatter: bool,
+    /// public `State` methods (method, argument) called after the render on the captured state
+    /// (`Captured::with_state_mut`), or — modes "new_state" / "empty_state" — on a stand-alone state
+    /// instead of a render; they are part of the evaluation: its trace, its budget, its result
+    #[serde(default)]
+    post: Vec<(String, String)>,
+    /// structured program (loops over the data, instructions that fail depending on the data): for
+    /// every `for` loop in source order the context variable it walks and how many enclosing loops
+    /// over the same variable there are, the same for every `//` whose divisor comes from the data;
+    /// the compiled instruction list is then printed with its jump targets
+    #[serde(default)]
+    skel: Option<serde_json::Value>,
 }
 
 #[derive(Default)]
@@ -248,6 +260,104 @@ impl minijinja::value::Object for ReObj {
     }
 }
 
+/// render-local extension used by the API stream
+struct ApiCounter(usize);
+
+/// every public method of `State`, by name; the evaluating ones enter a nested evaluation
+fn api_call(state: &mut State, method: &str, arg: &str) -> Result<String, Error> {
+    Ok(match method {
+        "env" => state.env().debug().to_string(),
+        "name" => state.name().to_string(),
+        "auto_escape" => format!("{:?}", state.auto_escape()),
+        "undefined_behavior" => format!("{:?}", state.undefined_behavior()),
+        "current_block" => format!("{:?}", state.current_block()),
+        "lookup" => format!("{:?}", state.lookup(arg).map(|v| v.kind())),
+        "exports" => state.exports().len().to_string(),
+        "known_variables" => (state.known_variables().len() > 3).to_string(),
+        "get_template" => state.get_template(arg).map(|t| t.name().to_string())?,
+        "fuel_levels" => {
+            let _ = state.fuel_levels();
+            String::new()
+        }
+        "temps" => {
+            let old = state.set_temp(arg, Value::from(1));
+            format!("{:?}{:?}", old.is_some(), state.get_temp(arg).is_some())
+        }
+        "extension" => {
+            state.get_or_insert_extension(ApiCounter(0)).0 += 1;
+            state.get_or_insert_extension_with(|| ApiCounter(100)).0 += 1;
+            if let Some(c) = state.get_extension_mut::<ApiCounter>() {
+                c.0 += 1;
+            }
+            state.get_extension::<ApiCounter>().map_or(0, |c| c.0 % 3).to_string()
+        }
+        "call_macro" => state.call_macro(arg, &[])?,
+        "render_block" => state.render_block(arg)?,
+        "render_block_to_write" => {
+            let mut buf: Vec<u8> = vec![];
+            state.render_block_to_write(arg, &mut buf)?;
+            String::from_utf8_lossy(&buf).to_string()
+        }
+        "apply_filter" => state.apply_filter("f_macro", &[Value::from(1), Value::from(arg)])?.to_string(),
+        "apply_filter_block" => state.apply_filter("f_block", &[Value::from(1), Value::from(arg)])?.to_string(),
+        "perform_test" => state.perform_test("t_macro", &[Value::from(1), Value::from(arg)])?.to_string(),
+        "perform_test_block" => state.perform_test("t_block", &[Value::from(1), Value::from(arg)])?.to_string(),
+        "format" => state.format(Value::from(arg))?,
+        "value_call" => {
+            let f = state.lookup(arg).ok_or_else(|| Error::from(minijinja::ErrorKind::UnknownFunction))?;
+            f.call(state, &[])?.to_string()
+        }
+        "object_method" => Value::from_object(ReObj).call_method(state, "run", &[Value::from(arg)])?.to_string(),
+        _ => return Err(Error::new(minijinja::ErrorKind::InvalidOperation, "harness: unknown api method")),
+    })
+}
+
+fn api_probe(state: &State) {
+    let lv = state.fuel_levels();
+    REC.with(|r| {
+        let mut r = r.borrow_mut();
+        let c = r.count;
+        r.probes.push((c, lv));
+    });
+}
+
+/// `{{ api('render_block', 'a') }}`: one public `State` method called from inside the running
+/// render, with the levels recorded right before and right after
+fn api(state: &mut State, method: String, arg: String) -> Result<String, Error> {
+    api_probe(state);
+    let rv = api_call(state, &method, &arg);
+    api_probe(state);
+    rv
+}
+
+/// `{{ api_retry('call_macro', 'm', 'render_block', 'a') }}`: a Rust callback that recovers from a
+/// failing nested evaluation by trying another one.  When the first ran out of fuel the tank is
+/// empty: the second must be refused as well (it costs something).
+fn api_retry(state: &mut State, m1: String, a1: String, m2: String, a2: String) -> String {
+    match api_call(state, &m1, &a1) {
+        Ok(s) => s,
+        Err(e1) => {
+            let oof = root_is_out_of_fuel(&e1);
+            let lv = state.fuel_levels();
+            api_probe(state);
+            let second = api_call(state, &m2, &a2);
+            let lv2 = state.fuel_levels();
+            api_probe(state);
+            REC.with(|r| {
+                let mut r = r.borrow_mut();
+                r.swallowed += 1;
+                if oof && (lv.map_or(true, |x| x.1 != 0) || lv2.map_or(true, |x| x.1 != 0) || second.is_ok()) {
+                    r.sticky_bad += 1;
+                }
+            });
+            match second {
+                Ok(s) => format!("RETRIED:{s}"),
+                Err(_) => "FALLBACK2".to_string(),
+            }
+        }
+    }
+}
+
 #[derive(Clone, PartialEq, Debug)]
 enum Outcome {
     /// output, Debug form of the `Captured` (contains the state)
@@ -332,12 +442,23 @@ fn build_env_variant(prog: &Prog, variant: &str) -> Result<Environment<'static>,
             minijinja::escape_formatter(out, state, value)
         });
     }
+    env.add_function("api", api);
+    env.add_function("api_retry", api_retry);
+    // `{{ 1.reenter('m') }}`: the unknown-method callback re-enters the VM
+    env.set_unknown_method_callback(|state, _value, method, args| {
+        if method == "reenter" {
+            let name = args.first().and_then(|v| v.as_str()).unwrap_or("m").to_string();
+            state.call_macro(&name, &[Value::from(3)]).map(Value::from)
+        } else {
+            Err(Error::from(minijinja::ErrorKind::UnknownMethod))
+        }
+    });
     env.add_function("dbgstate", dbgstate);
     env.add_function("dbgenv", dbgenv);
     env.add_function("try_macro", try_macro);
     env.add_function("try_block", try_block);
     env.add_function("try_apply", try_apply);
-    if prog.mode == "template" {
+    if prog.mode != "expr" {
         for (name, src) in &prog.templates {
             env.add_template_owned(name.clone(), src.clone())
                 .map_err(|e| format!("{:?}: {}", e.kind(), e))?;
@@ -362,21 +483,77 @@ fn run(env: &mut Environment<'static>, prog: &Prog, fuel: Option<u64>, collect: 
     });
     let ctx = Value::from(Serde(&prog.ctx));
     let env_ref: &Environment<'static> = env;
-    let res = guarded(|| -> Result<(String, String, Option<(u64, u64)>), Error> {
-        if prog.mode == "expr" {
-            let e = env_ref.compile_expression(&prog.templates[0].1)?;
-            let v = e.eval(ctx)?;
-            Ok((format!("{:?}:{}", v.kind(), v), format!("{:?}", v), None))
-        } else {
-            let t = env_ref.get_template(&prog.templates[0].0)?;
-            let cap = t.render_captured(ctx)?;
-            let lv = cap.state().fuel_levels();
-            Ok((cap.output().to_string(), format!("{:?}", cap), lv))
-        }
+    // the post calls run on a state that survives a failing call: the levels are read in any case
+    let res = guarded(|| -> (Result<(String, String), Error>, Option<(u64, u64)>) {
+        let mut lv_out = None;
+        let r = (|| -> Result<(String, String), Error> {
+            if prog.mode == "expr" {
+                let e = env_ref.compile_expression(&prog.templates[0].1)?;
+                let v = e.eval(ctx)?;
+                Ok((format!("{:?}:{}", v.kind(), v), format!("{:?}", v)))
+            } else if prog.mode == "new_state" || prog.mode == "empty_state" {
+                let t;
+                let mut st = if prog.mode == "new_state" {
+                    t = env_ref.get_template(&prog.templates[0].0)?;
+                    t.new_state()
+                } else {
+                    env_ref.empty_state()
+                };
+                let mut out = String::new();
+                let mut failed = None;
+                api_probe(&st);
+                for (m, a) in &prog.post {
+                    match api_call(&mut st, m, a) {
+                        Ok(s) => {
+                            out.push_str(&s);
+                            out.push('|');
+                        }
+                        Err(e) => {
+                            failed = Some(e);
+                            break;
+                        }
+                    }
+                    api_probe(&st);
+                }
+                lv_out = Some(st.fuel_levels());
+                match failed {
+                    Some(e) => Err(e),
+                    None => Ok((out, format!("{:?}", st))),
+                }
+            } else {
+                let t = env_ref.get_template(&prog.templates[0].0)?;
+                let mut cap = t.render_captured(ctx)?;
+                let mut out = cap.output().to_string();
+                let mut failed = None;
+                for (m, a) in &prog.post {
+                    let r = cap.with_state_mut(|st| {
+                        let r = api_call(st, m, a);
+                        api_probe(st);
+                        r
+                    });
+                    match r {
+                        Ok(s) => {
+                            out.push('|');
+                            out.push_str(&s);
+                        }
+                        Err(e) => {
+                            failed = Some(e);
+                            break;
+                        }
+                    }
+                }
+                lv_out = Some(cap.state().fuel_levels());
+                match failed {
+                    Some(e) => Err(e),
+                    None => Ok((out, format!("{:?}", cap))),
+                }
+            }
+        })();
+        (r, lv_out.flatten())
     });
     let (outcome, levels) = match res {
-        Ok(Ok((s, d, lv))) => (Outcome::Ok(s, d), lv),
-        Ok(Err(e)) => (err_outcome(&e), None),
+        Ok((Ok((s, d)), lv)) => (Outcome::Ok(s, d), lv),
+        Ok((Err(e), lv)) => (err_outcome(&e), lv),
         Err(msg) => (Outcome::Panic(msg), None),
     };
     REC.with(|r| {
@@ -502,15 +679,16 @@ fn run_block_entry(env: &mut Environment<'static>, prog: &Prog, block: &str, fue
         }
     });
     let e: &Environment<'static> = env;
-    let res = guarded(|| -> Result<(String, Option<(u64, u64)>), Error> {
+    let res = guarded(|| -> Result<(Result<String, Error>, Option<(u64, u64)>), Error> {
         let t = e.get_template(&prog.templates[0].0)?;
         let mut st = t.new_state();
         let out = st.render_block(block);
         let lv = st.fuel_levels();
-        out.map(|s| (s, lv))
+        Ok((out, lv))
     });
     let (outcome, levels) = match res {
-        Ok(Ok((s, lv))) => (Outcome::Ok(s, String::new()), lv),
+        Ok(Ok((Ok(s), lv))) => (Outcome::Ok(s, String::new()), lv),
+        Ok(Ok((Err(e), lv))) => (err_outcome(&e), lv),
         Ok(Err(e)) => (err_outcome(&e), None),
         Err(msg) => (Outcome::Panic(msg), None),
     };
@@ -567,6 +745,7 @@ fn extras(env: &mut Environment<'static>, prog: &Prog, thr: u64, t0: &[u16], res
             runs.push(json!([b, tag(&r.outcome, &target.outcome), r.levels.map(|x| x.0), r.levels.map(|x| x.1), r.n, r.mismatch as u8]));
         }
         entries.push(json!({"name": entry, "unmetered": *entry == "set_this_then_none",
+                            "lv": matches!(*entry, "render_captured_to" | "template_from_named_str.render_captured"),
                             "unl_n": target.n, "unl_mismatch": target.mismatch, "runs": runs}));
     }
     res["entries"] = json!(entries);
@@ -601,7 +780,7 @@ fn extras(env: &mut Environment<'static>, prog: &Prog, thr: u64, t0: &[u16], res
                     runs.push(json!([b, tag(&r.outcome, &target), r.levels.map(|x| x.0), r.levels.map(|x| x.1), r.n, r.mismatch as u8]));
                 }
             }
-            blocks.push(json!({"name": name, "thr": bthr, "trace": trace.join(" "), "runs": runs}));
+            blocks.push(json!({"name": name, "thr": bthr, "trace": trace.join(" "), "runs": runs, "unl_ok": matches!(target, Outcome::Ok(..))}));
         }
     }
     res["blocks"] = json!(blocks);
@@ -633,7 +812,7 @@ fn extras(env: &mut Environment<'static>, prog: &Prog, thr: u64, t0: &[u16], res
                 runs.push(json!([b, tag(&r.outcome, &target), r.levels.map(|x| x.0), r.levels.map(|x| x.1), r.n, r.mismatch as u8]));
             }
         }
-        variants.push(json!({"name": v, "same_trace": same_trace, "trace": if same_trace { String::new() } else { trace.join(" ") },
+        variants.push(json!({"name": v, "same_trace": same_trace, "unl_ok": matches!(target, Outcome::Ok(..)), "trace": if same_trace { String::new() } else { trace.join(" ") },
                              "thr": vthr, "runs": runs}));
     }
     res["variants"] = json!(variants);
@@ -644,9 +823,19 @@ fn extras(env: &mut Environment<'static>, prog: &Prog, thr: u64, t0: &[u16], res
     });
 }
 
-const EXTREMES: [u64; 7] = [
+const EXTREMES: [u64; 15] = [
+    // the boundaries of narrower integer types and of exact f64 integers (a budget or a level that
+    // passes through such a type somewhere wraps, truncates or rounds there)
+    (1 << 16) - 1,
+    1 << 16,
+    (1 << 16) + 1,
+    1 << 24,
+    (1 << 31) - 1,
     1 << 31,
+    (1 << 32) - 1,
     1 << 32,
+    (1 << 32) + 1,
+    (1 << 53) + 1,
     (1 << 63) - 1,
     1 << 63,
     (1 << 63) + 1,
@@ -693,6 +882,23 @@ fn run_prog(prog: &Prog, thorough: bool, with_extras: bool) -> serde_json::Value
         vec![]
     };
 
+    let static_full: Vec<serde_json::Value> = if prog.skel.is_some() {
+        match env.get_template(&prog.templates[0].0) {
+            Ok(t) => {
+                let ct = get_compiled_template(&t);
+                let mut v = vec![];
+                let mut i = 0u32;
+                while let Some(ins) = ct.instructions.get(i) {
+                    v.push(serde_json::to_value(ins).unwrap_or(json!(null)));
+                    i += 1;
+                }
+                v
+            }
+            Err(_) => vec![],
+        }
+    } else {
+        vec![]
+    };
     let unl = match &target {
         Outcome::Ok(s, _) => json!({"t": "ok", "out": s}),
         Outcome::Err(k, m) => json!({"t": "err", "kind": k, "msg": m}),
@@ -703,6 +909,9 @@ fn run_prog(prog: &Prog, thorough: bool, with_extras: bool) -> serde_json::Value
         "static": stat, "ntemplates": prog.templates.len(),
         "unl_probes": u1.probes.len(),
     });
+    if prog.skel.is_some() {
+        res["static_full"] = json!(static_full);
+    }
     if matches!(target, Outcome::Panic(_)) {
         return res;
     }
@@ -839,7 +1048,7 @@ fn run_prog(prog: &Prog, thorough: bool, with_extras: bool) -> serde_json::Value
             break;
         }
         // the plain `render` entry point agrees with `render_captured`
-        if prog.mode == "template" {
+        if prog.mode == "template" && prog.post.is_empty() {
             env.set_fuel(Some(b));
             let ctx = Value::from(Serde(&prog.ctx));
             let env_ref: &Environment<'static> = &env;
@@ -857,7 +1066,7 @@ fn run_prog(prog: &Prog, thorough: bool, with_extras: bool) -> serde_json::Value
         }
     }
     res["rep"] = json!(rep);
-    if with_extras && !matches!(target, Outcome::Panic(_)) {
+    if with_extras && !matches!(target, Outcome::Panic(_)) && prog.post.is_empty() && (prog.mode == "template" || prog.mode == "expr") {
         extras(&mut env, prog, thr, &t1, &mut res);
     }
     res
@@ -885,6 +1094,8 @@ fn prog(id: &str, group: &str, k: i64, tpls: &[(&str, String)]) -> Prog {
         ctx: default_ctx(),
         swallow: false,
         reenter_formatter: false,
+        post: vec![],
+        skel: None,
     }
 }
 
@@ -1104,7 +1315,7 @@ fn observer_programs(v: &mut Vec<Prog>) {
 /// nested evaluations reached through builtins that call user tests/filters per item, through
 /// `State::apply_filter`/`perform_test`, object calls/methods and a re-entering formatter
 fn reenter_programs(v: &mut Vec<Prog>) {
-    let forms: [(&str, &str); 16] = [
+    let forms: [(&str, &str); 17] = [
         ("select", "xs|select('t_macro', 'm')|list"), ("reject", "xs|reject('t_macro', 'm')|list"),
         ("selectattr", "items|selectattr('a', 't_macro', 'm')|map(attribute='a')|list"),
         ("rejectattr", "items|rejectattr('a', 't_macro', 'm')|list|length"),
@@ -1113,6 +1324,7 @@ fn reenter_programs(v: &mut Vec<Prog>) {
         ("filter", "1|f_macro('m')"), ("apply_filter", "af('f_macro', 1, 'm')"), ("perform_test", "pt('t_macro', 1, 'm')"),
         ("apply_filter-builtin-select", "af3('select', xs, 't_macro', 'm')|list|length"),
         ("object-call", "obj('m')"), ("object-method", "obj.run('m')"), ("select-in-map", "[xs, xs]|map('select', 't_macro', 'm')|map('list')|list"),
+        ("object-callobject", "[obj][0]('m')"),
     ];
     for k in 0..=3 {
         let w = work(k);
@@ -1139,10 +1351,285 @@ fn reenter_programs(v: &mut Vec<Prog>) {
         v.push(prog(&format!("reenter:select-in-super:plain:{}", k), "reenter-select-in-super", k,
                     &[("main", "{% extends 'base' %}{% block b %}[{{ super()|upper }}]{% endblock %}".to_string()),
                       ("base", format!("{{% macro m(x=0) %}}n{w}{{% endmacro %}}<{{% block b %}}{{{{ xs|reject('t_macro', 'm')|list }}}}{{% endblock %}}>{{{{ probe() }}}}"))]));
+        v.push(prog(&format!("reenter:unknown-method:plain:{}", k), "reenter-unknown-method", k,
+                    &[("main", format!("{defs}{{{{ 1.reenter('m') }}}}{{% set u = 'x'.reenter('m') %}}{{{{ u|upper }}}}{{{{ probe() }}}}"))]));
+        for (jname, je) in [("join-safe-joiner", "['FMT', 'x', 'FMT']|join('-'|safe)"), ("join-safe-item", "['FMT', 'x'|safe]|join('-')"),
+                            ("join-in-map", "[['FMT'], ['FMT', 'y']]|map('join', ','|safe)|list")] {
+            let mut pj = prog(&format!("reenter:formatter-{jname}:plain:{}", k), &format!("reenter-formatter-{jname}"), k,
+                              &[("main", format!("{{% macro fm() %}}f{w}{{{{ probe() }}}}{{% endmacro %}}{{% autoescape true %}}a{{{{ {je} }}}}{{% set j = {je} %}}{{{{ j }}}}{{% endautoescape %}}{{{{ probe() }}}}"))]);
+            pj.reenter_formatter = true;
+            v.push(pj);
+        }
         let mut pf = prog(&format!("reenter:formatter:plain:{}", k), "reenter-formatter", k,
                           &[("main", format!("{{% macro fm() %}}f{w}{{{{ probe() }}}}{{% endmacro %}}a{{{{ 'FMT' }}}}b{{{{ 'FMT'|upper }}}}{{{{ 'FMT' }}}}{{{{ probe() }}}}"))]);
         pf.reenter_formatter = true;
         v.push(pf);
+    }
+}
+
+
+// ------------------------------------------------------------------------------------------------
+// API stream: every public `State` method, called from Rust inside the running render at several
+// places, after the render on the captured state, and on stand-alone states
+
+const API_EVAL: [(&str, &str); 10] = [
+    ("call_macro", "m"), ("render_block", "a"), ("render_block_to_write", "a"), ("apply_filter", "m"), ("apply_filter_block", "a"),
+    ("perform_test", "m"), ("perform_test_block", "a"), ("format", "FMT"), ("value_call", "m"), ("object_method", "m"),
+];
+const API_PLAIN: [(&str, &str); 12] = [
+    ("env", ""), ("name", ""), ("auto_escape", ""), ("undefined_behavior", ""), ("current_block", ""), ("lookup", "a"),
+    ("exports", ""), ("known_variables", ""), ("get_template", "main"), ("fuel_levels", ""), ("temps", "t"), ("extension", ""),
+];
+
+fn api_defs(k: i64) -> String {
+    let w = work(k);
+    format!("{{% macro m(x=0) %}}n{{{{ x }}}}{w}{{{{ probe() }}}}{{% endmacro %}}{{% macro fm() %}}f{w}{{% endmacro %}}{{% block a %}}a{w}{{{{ probe() }}}}{{% endblock %}}|")
+}
+
+/// the places in which `body` can run: top level, loop, macro, include, block, parent block reached
+/// through a captured `super()`, call block, `set` block
+fn api_contexts(defs: &str, body: &str, tail: &str) -> Vec<(&'static str, Vec<(&'static str, String)>)> {
+    vec![
+        ("top", vec![("main", format!("{defs}{body}{tail}"))]),
+        ("in-loop", vec![("main", format!("{defs}{{% for i in range(2) %}}{body}{{% endfor %}}{tail}"))]),
+        ("in-macro", vec![("main", format!("{defs}{{% macro outer() %}}{{% if m and fm %}}{{% endif %}}{body}{{% endmacro %}}{{{{ outer() }}}}{tail}"))]),
+        ("in-include", vec![("main", format!("{defs}{{% include 'inc' %}}{tail}")), ("inc", body.to_string())]),
+        ("in-block", vec![("main", format!("{defs}{{% block b %}}{body}{{% endblock %}}{tail}"))]),
+        ("in-super", vec![("main", format!("{{% extends 'base' %}}{{% block b %}}[{{{{ super()|upper }}}}]{{% endblock %}}")),
+                          ("base", format!("{defs}<{{% block b %}}{body}{{% endblock %}}>{tail}"))]),
+        ("in-callbody", vec![("main", format!("{defs}{{% macro wrap() %}}[{{{{ caller() }}}}]{{% endmacro %}}{{% call wrap() %}}{body}{{% endcall %}}{tail}"))]),
+        ("in-setblock", vec![("main", format!("{defs}{{% set cap %}}{body}{{% endset %}}{{{{ cap }}}}{{{{ cap|upper }}}}{tail}"))]),
+    ]
+}
+
+fn api_programs(v: &mut Vec<Prog>) {
+    let tail = "{{ probe() }}";
+    // evaluating methods: work parameter inside the nested evaluation
+    for k in 0..=2 {
+        let defs = api_defs(k);
+        for (method, arg) in API_EVAL {
+            let e = format!("api('{method}', '{arg}')");
+            let forms = [("emit", format!("{{{{ {e} }}}}")), ("set", format!("{{% set x = {e} %}}{{{{ x }}}}{{{{ x }}}}")),
+                         ("filter", format!("{{{{ {e}|upper }}}}"))];
+            for (fname, body) in forms {
+                for (cname, tpls) in api_contexts(&defs, &body, tail) {
+                    if fname != "emit" && k == 2 {
+                        continue;
+                    }
+                    let mut p = prog(&format!("api:{method}:{cname}-{fname}:{k}"), &format!("api-{method}-{cname}-{fname}"), k, &tpls);
+                    p.reenter_formatter = true;
+                    v.push(p);
+                }
+            }
+        }
+    }
+    // the methods that do not evaluate anything leave the levels alone
+    let defs = api_defs(1);
+    for (method, arg) in API_PLAIN {
+        let body = format!("{{{{ api('{method}', '{arg}') }}}}");
+        for (cname, tpls) in api_contexts(&defs, &body, tail) {
+            let mut p = prog(&format!("api:{method}:{cname}:1"), "", 1, &tpls);
+            p.reenter_formatter = true;
+            v.push(p);
+        }
+    }
+    // a callback that recovers from a failing nested evaluation by trying another one
+    for k in 0..=2 {
+        let defs = api_defs(k);
+        for (i, (m1, a1)) in API_EVAL.iter().enumerate() {
+            let (m2, a2) = API_EVAL[(i + 3) % API_EVAL.len()];
+            for (m2, a2) in [(*m1, *a1), (m2, a2)] {
+                let body = format!("{{{{ api_retry('{m1}', '{a1}', '{m2}', '{a2}') }}}}");
+                for (cname, tpls) in api_contexts(&defs, &body, "after{{ 1 }}") {
+                    if k > 0 && !matches!(cname, "top" | "in-macro" | "in-super") {
+                        continue;
+                    }
+                    let mut p = prog(&format!("retry:{m1}-{m2}:{cname}:{k}"), &format!("retry-{m1}-{m2}-{cname}"), k, &tpls);
+                    p.reenter_formatter = true;
+                    p.swallow = true;
+                    v.push(p);
+                }
+            }
+        }
+    }
+    // after the render, on the captured state; and on stand-alone states
+    let all: Vec<(&str, &str)> = API_EVAL.iter().chain(API_PLAIN.iter()).cloned().collect();
+    for k in 0..=2 {
+        let main = format!("{}x{{{{ 1 }}}}{{{{ probe() }}}}", api_defs(k));
+        let mut seqs: Vec<(String, Vec<(&str, &str)>)> = vec![];
+        for (method, arg) in API_EVAL {
+            seqs.push((format!("{method}x3"), vec![(method, arg), ("fuel_levels", ""), (method, arg), (method, arg)]));
+        }
+        for rot in 0..4 {
+            let mut q = all.clone();
+            q.rotate_left(rot * 5);
+            seqs.push((format!("all-rot{rot}"), q));
+        }
+        for (sname, seq) in seqs {
+            for mode in ["template", "new_state"] {
+                if mode == "new_state" && seq.iter().any(|(m, _)| matches!(*m, "call_macro" | "apply_filter" | "perform_test" | "value_call" | "object_method" | "format")) && !sname.starts_with("all") {
+                    continue; // the macros do not exist in a state whose template did not run
+                }
+                let mut p = prog(&format!("post:{mode}:{sname}:{k}"), &format!("post-{mode}-{sname}"), k, &[("main", main.clone())]);
+                p.mode = mode.to_string();
+                p.reenter_formatter = true;
+                p.post = seq.iter().map(|(m, a)| (m.to_string(), a.to_string())).collect();
+                if mode == "new_state" && sname.starts_with("all") {
+                    // keep only what can succeed on a stand-alone state
+                    p.post.retain(|(m, _)| !matches!(m.as_str(), "call_macro" | "apply_filter" | "perform_test" | "value_call" | "object_method" | "format"));
+                }
+                v.push(p);
+            }
+        }
+    }
+    for rot in 0..2 {
+        let mut q = all.clone();
+        q.rotate_left(rot * 7);
+        q.retain(|(m, _)| !matches!(*m, "call_macro" | "render_block" | "render_block_to_write" | "apply_filter" | "apply_filter_block" | "perform_test"
+            | "perform_test_block" | "value_call" | "object_method" | "format" | "get_template" | "current_block"));
+        let mut p = prog(&format!("post:empty_state:plain-rot{rot}:0"), "", 0, &[("main", "x".to_string())]);
+        p.mode = "empty_state".to_string();
+        p.post = q.iter().map(|(m, a)| (m.to_string(), a.to_string())).collect();
+        v.push(p);
+    }
+    // stand-alone states on which an evaluation is attempted and fails for a reason of its own
+    for (method, arg) in [("render_block", "nope"), ("call_macro", "m"), ("format", "FMT")] {
+        for mode in ["new_state", "empty_state"] {
+            let mut p = prog(&format!("post:{mode}:failing-{method}:0"), "", 0, &[("main", api_defs(1))]);
+            p.mode = mode.to_string();
+            p.reenter_formatter = true;
+            p.post = vec![("fuel_levels".to_string(), String::new()), (method.to_string(), arg.to_string())];
+            v.push(p);
+        }
+    }
+}
+
+/// include / import forms x surroundings x {code follows, nothing follows}: an engine that drops the
+/// error of a nested evaluation is only visible when nothing that costs fuel follows
+fn nested_stmt_programs(v: &mut Vec<Prog>) {
+    for k in 0..=3 {
+        let w = work(k);
+        let inc = ("inc", format!("i{{{{ a }}}}{w}{{{{ probe() }}}}"));
+        let lib = ("lib2", format!("L{w}{{{{ probe() }}}}{{% set exported = 1 %}}{{% macro mm() %}}M{{% endmacro %}}"));
+        let stmts: Vec<(&str, &str)> = vec![
+            ("include-ignore-missing", "{% include 'inc' ignore missing %}"),
+            ("include-list", "{% include ['nope', 'inc'] %}"),
+            ("include-list-ignore-missing", "{% include ['nope', 'inc', 'nope2'] ignore missing %}"),
+            ("include-dynamic", "{% include incname %}"),
+            ("include-with-context", "{% include 'inc' with context %}"),
+            ("import", "{% import 'lib2' as l2 %}{{ l2.exported }}"),
+            ("from-import", "{% from 'lib2' import mm, exported %}{{ mm() }}"),
+        ];
+        for (edge, stmt) in stmts {
+            let surround: Vec<(&str, String)> = vec![
+                ("plain", stmt.to_string()),
+                ("setblock", format!("{{% set x %}}{stmt}{{% endset %}}{{{{ x }}}}")),
+                ("filterblock", format!("{{% filter upper %}}{stmt}{{% endfilter %}}")),
+                ("loop", format!("{{% for i in range(2) %}}{stmt}{{% endfor %}}")),
+                ("with", format!("{{% with a = 2 %}}{stmt}{{% endwith %}}")),
+                ("in-macro", format!("{{% macro mq() %}}{stmt}{{% endmacro %}}{{{{ mq() }}}}")),
+                ("in-block", format!("{{% block b %}}{stmt}{{% endblock %}}")),
+            ];
+            for (pos, body) in surround {
+                for (tname, tail) in [("tail", "{{ probe() }}"), ("notail", "")] {
+                    if tname == "notail" && k != 1 {
+                        continue;
+                    }
+                    let mut p = prog(&format!("stmt:{edge}:{pos}-{tname}:{k}"), &if tname == "tail" { format!("stmt-{edge}-{pos}") } else { String::new() }, k,
+                                     &[("main", format!("{body}{tail}")), inc.clone(), lib.clone()]);
+                    p.ctx["incname"] = json!("inc");
+                    v.push(p);
+                }
+            }
+        }
+    }
+}
+
+/// the existing edge x position matrix once more with nothing after the nested evaluation
+fn notail_programs(v: &mut Vec<Prog>) {
+    let mut extra = vec![];
+    for p in v.iter() {
+        if !(p.id.starts_with("edge:") || p.id.starts_with("reenter:") || p.id.starts_with("api:")) || p.k != 1 {
+            continue;
+        }
+        let mut q = p.clone();
+        let mut changed = false;
+        for (_, src) in q.templates.iter_mut() {
+            if let Some(stripped) = src.strip_suffix("{{ probe() }}") {
+                *src = stripped.to_string();
+                changed = true;
+            }
+        }
+        if changed {
+            q.id = q.id.replacen(":", "-notail:", 1);
+            q.group = String::new();
+            extra.push(q);
+        }
+    }
+    v.extend(extra);
+}
+
+
+/// structured programs: loops whose trip counts come from the data, nested loops whose inner
+/// counts depend on the outer item, instructions that fail for some item
+fn skel_programs(v: &mut Vec<Prog>, thorough: bool) {
+    let mut add = |id: String, group: &str, k: i64, src: &str, ctx: serde_json::Value, loops: serde_json::Value, fails: serde_json::Value| {
+        let mut p = prog(&id, group, k, &[("main", src.to_string())]);
+        p.ctx = ctx;
+        p.skel = Some(json!({"loops": loops, "fails": fails}));
+        v.push(p);
+    };
+    let nmax: i64 = if thorough { 12 } else { 6 };
+    // one loop, trip count n
+    for n in 0..=nmax {
+        let xs: Vec<i64> = (1..=n).collect();
+        add(format!("skel:flat:{n}"), "skel-flat", n, "a{% for x in xs %}{{ x }},{% endfor %}b{{ 1 }}", json!({"xs": xs}), json!([["xs", 0]]), json!([]));
+        add(format!("skel:two:{n}"), "skel-two", n, "{% for x in xs %}{{ x }}{% endfor %}-{% for y in ys %}{{ y }}{{ y }}{% endfor %}",
+            json!({"xs": xs, "ys": [1, 2]}), json!([["xs", 0], ["ys", 0]]), json!([]));
+    }
+    // nested loops: the inner trip count is the length of the outer item
+    let shapes: Vec<Vec<usize>> = vec![vec![], vec![0], vec![1], vec![3], vec![0, 0], vec![2, 0, 1], vec![1, 2, 3], vec![3, 3, 3], vec![4, 0, 0, 2, 1]];
+    for (si, shape) in shapes.iter().enumerate() {
+        let rows: Vec<Vec<i64>> = shape.iter().map(|n| (1..=*n as i64).collect()).collect();
+        add(format!("skel:nested:{si}"), "", 0, "{% for row in rows %}[{% for x in row %}{{ x }},{% endfor %}]{% endfor %}end",
+            json!({"rows": rows}), json!([["rows", 0], ["rows", 1]]), json!([]));
+        // three levels
+        let cube: Vec<Vec<Vec<i64>>> = shape.iter().map(|n| (0..*n).map(|j| (0..(j % 3) as i64).collect()).collect()).collect();
+        add(format!("skel:cube:{si}"), "", 0, "{% for a in t %}{% for b in a %}<{% for c in b %}{{ c }}{% endfor %}>{% endfor %}|{% endfor %}",
+            json!({"t": cube}), json!([["t", 0], ["t", 1], ["t", 2]]), json!([]));
+    }
+    // an instruction that fails for some item: the render ends with its own error there
+    for n in 0..=5i64 {
+        for bad in 0..=n {
+            // the item at position `bad` is 0 (none when bad == n)
+            let xs: Vec<i64> = (0..n).map(|i| if i == bad { 0 } else { i + 1 }).collect();
+            add(format!("skel:fail-flat:{n}:{bad}"), "", 0, "{% for x in xs %}{{ 10 // x }};{% endfor %}done{{ 1 }}",
+                json!({"xs": xs}), json!([["xs", 0]]), json!([["xs", 1]]));
+        }
+    }
+    let grids: Vec<Vec<Vec<i64>>> = vec![vec![vec![1, 2], vec![3]], vec![vec![1, 0], vec![3]], vec![vec![1, 2], vec![0]], vec![vec![], vec![2, 2, 0, 2]],
+                                         vec![vec![0]], vec![vec![5], vec![], vec![6, 7], vec![8, 0]]];
+    for (gi, g) in grids.iter().enumerate() {
+        add(format!("skel:fail-nested:{gi}"), "", 0, "{% for row in rows %}({% for x in row %}{{ 10 // x }}{% endfor %}){% endfor %}{{ 1 }}",
+            json!({"rows": g}), json!([["rows", 0], ["rows", 1]]), json!([["rows", 2]]));
+    }
+}
+
+
+/// programs whose data is much larger than their instruction count: a builtin that compares a
+/// size with the fuel that is left shows here
+fn bigdata_programs(v: &mut Vec<Prog>) {
+    let srcs = [
+        "{{ range(5000)|length }}", "{{ range(99999)|last }}", "{{ range(0, 90000, 3)|list|length }}", "{{ ('x' * 3000)|length }}",
+        "{{ 'ab'|center(4000)|length }}", "{{ ([1, 2] * 700)|length }}", "{{ '%6000s'|format('a')|length }}", "{{ range(3000)|sum }}",
+        "{{ range(2500)|batch(7)|list|length }}", "{{ range(1200)|join|length }}", "{{ range(4000)|map('string')|list|length }}",
+        "{{ range(3500)|select('odd')|list|length }}", "{{ range(2000)|sort(reverse=true)|first }}", "{{ range(1500)|reverse|first }}",
+        "{{ ('a' * 2000)|upper|length }}{{ ('a b ' * 900)|title|length }}", "{{ range(3000)|slice(3)|list|length }}",
+        "{% set big = range(6000)|list %}{{ big[10:5000]|length }}{{ big|max }}", "{{ dict(a=range(4000))|items|list|length }}",
+        "{{ range(20000) is iterable }}{{ 7 in range(30000) }}", "{{ ('word ' * 800)|wordcount }}{{ ('y' * 5000)|truncate(20)|length }}",
+    ];
+    for (i, s) in srcs.iter().enumerate() {
+        v.push(single(&format!("bigdata:{}", i), s));
     }
 }
 
@@ -1160,6 +1647,8 @@ fn fixed_programs(thorough: bool) -> Vec<Prog> {
         "a{{ probe() }}b{{ 1 }}{{ probe() }}", "{{ range(3)|list }}", "{{ dict(a=1).a }}",
         "{# comment #}x", "{{ '%s-%s'|format(a, b) }}", "{{ xs|map('string')|list }}{{ xs|select('odd')|list }}",
         "{{ items|map(attribute='a')|sum }}", "{{ xs|batch(2)|list }}{{ name|replace('o', '0') }}",
+        "{{ a / b }}{{ a >= b }}{{ a < b }}{{ a <= b }}{{ a != b }}{{ a ** 2 }}{{ a % b }}", "{{ 1 < a < 10 }}{{ 1 < a <= 3 }}",
+        "{% set p, q = 1, 2 %}{{ p }}{{ q }}{{ (a, b) }}", "{{ range(*[1, 4])|list }}{{ dict(**{'k': 1}, j=2) }}", "{{ [range][0](3)|list }}",
     ];
     for (i, s) in straight.iter().enumerate() {
         v.push(single(&format!("straight:{}", i), s));
@@ -1277,6 +1766,11 @@ fn fixed_programs(thorough: bool) -> Vec<Prog> {
     swallow_programs(&mut v);
     observer_programs(&mut v);
     reenter_programs(&mut v);
+    nested_stmt_programs(&mut v);
+    api_programs(&mut v);
+    notail_programs(&mut v);
+    skel_programs(&mut v, thorough);
+    bigdata_programs(&mut v);
     // G. renders that fail without fuel as well
     let failing = [
         "A{{ 1 }}{{ nofn() }}B", "{% for x in range(3) %}{{ x }}{% if x == 1 %}{{ 1 // 0 }}{% endif %}{% endfor %}",
@@ -1422,7 +1916,7 @@ fn random_program(rng: &mut Rng, idx: usize) -> Prog {
     let mut all = vec![("main".to_string(), main)];
     all.extend(tpls);
     all.extend(incs);
-    let mut p = Prog { id: format!("random:{}", idx), group: String::new(), k: 0, mode: "template".into(), templates: all, ctx: default_ctx(), swallow: false, reenter_formatter: false };
+    let mut p = Prog { id: format!("random:{}", idx), group: String::new(), k: 0, mode: "template".into(), templates: all, ctx: default_ctx(), swallow: false, reenter_formatter: false, post: vec![], skel: None };
     p.ctx["n"] = json!(rng.below(4));
     p.ctx["c"] = json!(rng.chance(1, 2));
     p
@@ -1442,17 +1936,27 @@ fn main() {
     let mut out = std::io::BufWriter::new(stdout.lock());
     match args.get(1).map(|s| s.as_str()) {
         Some("gen") => {
+            // gen <tier> [shard nshards]: program number i is run by shard i % nshards
             let thorough = args.get(2).map(|s| s == "thorough").unwrap_or(false);
+            let shard: usize = args.get(3).and_then(|s| s.parse().ok()).unwrap_or(0);
+            let nshards: usize = args.get(4).and_then(|s| s.parse().ok()).unwrap_or(1).max(1);
+            let mut idx = 0usize;
             for p in fixed_programs(thorough) {
                 // entry points / configuration / environment variants: once per shape
                 let extras = !p.swallow && (p.group.is_empty() || p.k == 0);
-                emit(&p, thorough, extras, &mut out);
+                if idx % nshards == shard {
+                    emit(&p, thorough, extras, &mut out);
+                }
+                idx += 1;
             }
             let mut rng = Rng::new(seed_from_env());
             let n = if thorough { 25000 } else { 1500 };
             for i in 0..n {
                 let p = random_program(&mut rng, i);
-                emit(&p, thorough, i < if thorough { 3000 } else { 300 }, &mut out);
+                if idx % nshards == shard {
+                    emit(&p, thorough, i < if thorough { 3000 } else { 300 }, &mut out);
+                }
+                idx += 1;
             }
         }
         Some("one") => {
@@ -1461,7 +1965,7 @@ fn main() {
             emit(&p, thorough, true, &mut out);
         }
         _ => {
-            eprintln!("usage: c13 gen <quick|thorough> | c13 one <hex>");
+            eprintln!("usage: c13 gen <quick|thorough> [shard nshards] | c13 one <hex>");
             std::process::exit(2);
         }
     }
